@@ -136,7 +136,8 @@ Definition run_case (c : sexp) : sexp :=
     let h0 := sandbox (get_N (arg c 0)) in
     (* (root K) records which spelling of the export path the harness gave NewServer;
        Base is the cleaned path whatever the spelling *)
-    let ops := filter (fun x => negb (head_is x "root")) (skipn 2 (get_list c)) in
+    (* (hosttime #rel SECS): the HOST changed a file's times (os.Chtimes); times are not modelled *)
+    let ops := filter (fun x => negb (head_is x "root" || head_is x "hosttime")) (skipn 2 (get_list c)) in
     let '(s, l) := run_obs (init h0) [] ops in
     SList (ssym "obs" :: l ++ [SList [ssym "final"; sexp_content (u_host s);
                                       SList [ssym "outside"; sbool (outside_intact (u_host s) h0)]]])
